@@ -452,6 +452,56 @@ fn assert_msg_json<'tcx>(cx: &Cx<'tcx, '_>, msg: &AssertKind<Operand<'tcx>>, out
     }
 }
 
+struct ConstCollector<'tcx> {
+    tcx: TyCtxt<'tcx>,
+    found: Vec<String>,
+}
+
+impl<'tcx> rustc_middle::mir::visit::Visitor<'tcx> for ConstCollector<'tcx> {
+    fn visit_const_operand(&mut self, c: &rustc_middle::mir::ConstOperand<'tcx>, _loc: rustc_middle::mir::Location) {
+        match c.const_ {
+            Const::Unevaluated(uv, _) if uv.promoted.is_none() => {
+                self.found.push(path_of(self.tcx, uv.def));
+            }
+            _ => {
+                if let ty::FnDef(did, _) = c.const_.ty().kind() {
+                    self.found.push(format!("fn:{}", path_of(self.tcx, *did)));
+                } else if let Some(si) = c.const_.try_to_scalar_int() {
+                    let size = si.size();
+                    self.found.push(format!("lit:{}", si.to_bits(size)));
+                }
+            }
+        }
+    }
+}
+
+fn promoted_json<'tcx>(tcx: TyCtxt<'tcx>, def: LocalDefId, out: &mut String) {
+    use rustc_middle::mir::visit::Visitor;
+    let (_, promoted) = tcx.mir_promoted(def);
+    let promoted = promoted.borrow();
+    out.push_str(",\"promoted\":[");
+    let mut first = true;
+    for pb in promoted.iter() {
+        if !first {
+            out.push(',');
+        }
+        first = false;
+        let mut cc = ConstCollector { tcx, found: Vec::new() };
+        cc.visit_body(pb);
+        out.push('[');
+        let mut f2 = true;
+        for s in cc.found.iter() {
+            if !f2 {
+                out.push(',');
+            }
+            f2 = false;
+            out.push_str(&jstr(s));
+        }
+        out.push(']');
+    }
+    out.push(']');
+}
+
 fn body_json<'tcx>(tcx: TyCtxt<'tcx>, def: LocalDefId, body: &Body<'tcx>, out: &mut String) {
     let did = def.to_def_id();
     let kind = tcx.def_kind(did);
@@ -497,6 +547,7 @@ fn body_json<'tcx>(tcx: TyCtxt<'tcx>, def: LocalDefId, body: &Body<'tcx>, out: &
         }
     }
     let _ = write!(out, ",\"argc\":{}", body.arg_count);
+    promoted_json(tcx, def, out);
     // locals
     out.push_str(",\"locals\":[");
     let mut names: Vec<Option<String>> = vec![None; body.local_decls.len()];
